@@ -18,6 +18,7 @@ import (
 	"sort"
 	"strings"
 	"sync"
+	"sync/atomic"
 	"syscall"
 	"time"
 
@@ -322,12 +323,16 @@ type c15case struct {
 	Rate   string `json:"rate"`
 	Probes int    `json:"probes"`
 	Burst  bool   `json:"reply_burst"`
+	// the scanner is stopped (SIGSTOP) for this long after its n-th probe and then continued: whatever credit
+	// the limiter accrues while idle may be spent on at most b probes
+	PauseMs    int `json:"sigstop_ms,omitempty"`
+	PauseAfter int `json:"sigstop_after_probe,omitempty"`
 }
 
 func scenC15(run *vlab.Run, sx, tmp string) {
 	rng := run.Rand("c15wire")
 	var cases []*c15case
-	rates := []string{"200/s", "1000/s", "5000/s", "500", "100/100ms", "50/20ms", "3000/3s", "400/250ms", "20/10ms", "2/ms", "1000/1s"}
+	rates := []string{"200/s", "1000/s", "5000/s", "500", "100/100ms", "50/20ms", "3000/3s", "400/250ms", "20/10ms", "2/ms", "1000/1s", "20000/s", "8000/s"}
 	n := run.Pick(44, 330)
 	for i := 0; i < n; i++ {
 		c := &c15case{Rate: rates[i%len(rates)]}
@@ -369,6 +374,9 @@ func scenC15(run *vlab.Run, sx, tmp string) {
 			}
 		}
 		c.Extra = []string{"--srcip", foreignSrcIP, "--rate", c.Rate, "--exit-delay", "50ms"}
+		if rn >= 2000 || i%5 == 0 {
+			c.PauseMs, c.PauseAfter = 40, 20+rng.Intn(want/2+1)
+		}
 		cases = append(cases, c)
 	}
 	for i, c := range cases {
@@ -379,7 +387,17 @@ func scenC15(run *vlab.Run, sx, tmp string) {
 		for attempt := 0; attempt < 3; attempt++ {
 			args, stdin := wireArgs(tmp, &c.wireSpec)
 			dev := devName(c.Link)
-			res := RunCase(sx, &CaseSpec{Args: args, Stdin: stdin, Setup: commonWorld(c.Link), Sniff: []string{dev}, Timeout: 180 * time.Second})
+			var nSeen int32
+			spec := &CaseSpec{Args: args, Stdin: stdin, Setup: commonWorld(c.Link), Sniff: []string{dev}, Timeout: 180 * time.Second}
+			if c.PauseMs > 0 {
+				spec.OnTx = func(cr *CaseRun, d *Dev, frame []byte) {
+					if int(atomic.AddInt32(&nSeen, 1)) == c.PauseAfter {
+						cr.Signal(syscall.SIGSTOP)
+						time.AfterFunc(time.Duration(c.PauseMs)*time.Millisecond, func() { cr.Signal(syscall.SIGCONT) })
+					}
+				}
+			}
+			res := RunCase(sx, spec)
 			run.Eval(1)
 			desc := map[string]interface{}{"case": c, "argv": tailStr(strings.Join(args, " "), 300)}
 			if !baseChecks(run, res, desc, true) {
